@@ -44,6 +44,9 @@ RING = A(
     z3.ForAll([u, v, w], mul(mul(u, v), w) == mul(u, mul(v, w))),
     z3.ForAll([u, v, w], mul(u, add(v, w)) == add(mul(u, v), mul(u, w))),
 )
+DISTRIB = z3.ForAll([u, v, w], mul(u, add(v, w)) == add(mul(u, v), mul(u, w)))
+t4 = z3.Const("t4", S)
+INTERCHANGE = z3.ForAll([u, v, w, t4], add(add(u, v), add(w, t4)) == add(add(u, w), add(v, t4)))  # from assoc/comm of (+): goal semiring.L4_sum_of_sums/interchange_from_assoc_comm
 VIEWS = A(
     z3.ForAll([F, a, b], ap(ROW(F, a), b) == ap2(F, a, b)),
     z3.ForAll([F, a, b], ap(COL(F, b), a) == ap2(F, a, b)),
@@ -89,8 +92,8 @@ def L7_composition_is_associative():
         raise RuntimeError("lemmas/compose.py: hypotheses are contradictory")
     out = []
     out += induction("EXT", lambda k: ext(f, g, k), SUMDEF)
-    out += induction("L2Q", lambda k: l2(f, c, g, k), A(SUMDEF, RING))
-    out += induction("L4Q", lambda k: l4(f, g, h, k), A(SUMDEF, RING))
+    out += induction("L2Q", lambda k: l2(f, c, g, k), A(SUMDEF, DISTRIB))  # only distributivity is needed
+    out += induction("L4Q", lambda k: l4(f, g, h, k), A(SUMDEF, z3.substitute_vars(INTERCHANGE.body(), ap(h, n), ap(g, n), SUM(h, n), SUM(g, n))))  # one ground instance of the four-term interchange law of (+)
     # Fubini, induction on the number n of rows; m >= 1 columns fixed
     out += induction("FUB", lambda k: fub(F, k, m), A(SUMDEF, VIEWS, EXTQ, L4Q, m >= 1))
     # composition.  XY = x.y, YZ = y.z as two-argument functions defined through their summand functions
